@@ -1,0 +1,10 @@
+//go:build verif
+
+package traceroute
+
+import "github.com/DataDog/datadog-traceroute/publicip"
+
+// VerifNewTraceroute builds a Traceroute with the given public-IP fetcher.
+func VerifNewTraceroute(f publicip.Fetcher) *Traceroute {
+	return &Traceroute{publicIPFetcher: f}
+}
